@@ -31,6 +31,37 @@ type Slots struct {
 	Obj   interface{}
 	Grid  [][]interface{}
 	Extra interface{}
+	// struct VALUES (not pointers): a typed slice of them and a single one
+	Vals []Vee
+	Val  Vee
+}
+
+// Vee is the universe type that is used by value: plain fields, methods with a value receiver,
+// held in []Vee / Vee typed slots and as Vee values inside []interface{}.
+type Vee struct {
+	Str  string
+	Num  int
+	Flag bool
+}
+
+func (v Vee) Greet() string          { return "hi:" + v.Str }
+func (v Vee) Echo(str string) string { return "echo:" + str }
+func (v Vee) Flip(b bool) bool       { return !b }
+
+var veeType = reflect.TypeOf(Vee{})
+
+// veeValue builds the Vee value of a node (by value: there is no shared identity to fill later).
+func (w *World) veeValue(id int) interface{} {
+	n := w.C.Graph.Nodes[id]
+	pv := reflect.New(veeType)
+	w.fillUniverse(n, w.C.Schema.Type(n.Type), pv, false)
+	return pv.Elem().Interface()
+}
+
+// isVee: is the node an instance of the by-value universe type?
+func (w *World) isVee(id int) bool {
+	n := w.C.Graph.Nodes[id]
+	return w.C.Universe && n.Type != "" && w.C.GoType[n.Type] == "Vee"
 }
 
 // Computed (method backed) fields. Their GraphQL names are the lower case method names.
@@ -52,7 +83,7 @@ type UQuery struct{ Slots }
 
 var universeTypes = map[string]reflect.Type{
 	"Alpha": reflect.TypeOf(Alpha{}), "Beta": reflect.TypeOf(Beta{}), "Gamma": reflect.TypeOf(Gamma{}),
-	"Delta": reflect.TypeOf(Delta{}), "UQuery": reflect.TypeOf(UQuery{}),
+	"Delta": reflect.TypeOf(Delta{}), "UQuery": reflect.TypeOf(UQuery{}), "Vee": reflect.TypeOf(Vee{}),
 }
 
 // UniverseGoNames lists the object-capable Go types.
@@ -119,11 +150,18 @@ func UniverseCompute(n *hx.Node, fd *hx.Field, args map[string]interface{}) (hx.
 // "__str", "__obj", "__objs" back the slots the computed fields read.
 func (w *World) fillUniverse(n *hx.Node, td *hx.TypeDef, pv reflect.Value, poison bool) {
 	sv := pv.Elem().FieldByName("Slots")
+	if !sv.IsValid() {
+		sv = pv.Elem() // Vee has its slots directly
+	}
 	elemValue := func(v hx.Val, salt string) interface{} {
 		if v.K == "ref" {
 			return w.nodeValue(v.RefID())
 		}
 		return v.Go()
+	}
+	veeElem := func(v hx.Val) reflect.Value {
+		// a Vee typed slot holds the value whatever strategy the node is served by elsewhere
+		return reflect.ValueOf(w.veeValue(v.RefID()))
 	}
 	set := func(slot string, v hx.Val, salt string) {
 		f := sv.FieldByNameFunc(func(name string) bool { return strings.EqualFold(name, slot) })
@@ -147,6 +185,10 @@ func (w *World) fillUniverse(n *hx.Node, td *hx.TypeDef, pv reflect.Value, poiso
 			et := f.Type().Elem()
 			out := reflect.MakeSlice(f.Type(), len(v.L), len(v.L))
 			for i, e := range v.L {
+				if et == veeType {
+					out.Index(i).Set(veeElem(e))
+					continue
+				}
 				var x interface{}
 				if et.Kind() == reflect.Slice { // Grid [][]interface{}
 					inner := make([]interface{}, len(e.L))
@@ -171,6 +213,10 @@ func (w *World) fillUniverse(n *hx.Node, td *hx.TypeDef, pv reflect.Value, poiso
 			}
 			f.Set(out)
 		default:
+			if f.Type() == veeType {
+				f.Set(veeElem(v))
+				return
+			}
 			x := elemValue(v, salt)
 			xv := reflect.ValueOf(x)
 			switch {
